@@ -79,38 +79,44 @@ Qed.
 
 (* ---------------------------------------------------------------- range spellings read back *)
 Lemma read_uspan_uspan v tag s e :
+  fits s -> fits e ->
   uspan_omitted_count_zero v = false \/ e - s <> 1 ->
   read_uspan v tag (uspan v tag s e) = Some (s, e - s).
 Proof.
-  intros H. unfold read_uspan, uspan, uspan_bare, uspan_single, uspan_first_v, uspan_first, uspan_count, omitted_count.
+  intros Hs He H. unfold read_uspan, uspan, uspan_bare, uspan_single, uspan_first_v, uspan_first, uspan_count, omitted_count.
   destruct (e - s =? 1) eqn:E1.
   - apply Z.eqb_eq in E1. destruct H as [H|H]; [|lia]. rewrite H.
-    rewrite parse_span_single. change (1 =? 0) with false. rewrite andb_false_r.
+    rewrite parse_span_single by fits64. change (1 =? 0) with false. rewrite andb_false_r.
     f_equal. f_equal. lia.
-  - apply Z.eqb_neq in E1. rewrite parse_span_pair.
+  - apply Z.eqb_neq in E1.
     destruct (uspan_empty_names_next_line v); cbn [negb andb].
-    + reflexivity.
+    + rewrite parse_span_pair by fits64. reflexivity.
     + destruct (e - s =? 0) eqn:E0.
-      * apply Z.eqb_eq in E0. f_equal. f_equal; lia.
-      * reflexivity.
+      * rewrite parse_span_pair by fits64. rewrite E0.
+        apply Z.eqb_eq in E0. rewrite wrap64_id by fits64. f_equal. f_equal; lia.
+      * rewrite parse_span_pair by fits64. rewrite E0. reflexivity.
 Qed.
 
 (* the chunk built from the parsed (start, count) pairs *)
 Lemma uchunk_of_ranges es ls le rs re :
+  fits le -> fits re ->
   uchunk_of es ls (le - ls) rs (re - rs) = mkChunk es ls le rs re.
 Proof.
+  intros Hl Hr.
   unfold uchunk_of, read_uchunk_lstart, read_uchunk_lend, read_uchunk_rstart, read_uchunk_rend.
-  f_equal; lia.
+  replace (ls + (le - ls)) with le by lia. replace (rs + (re - rs)) with re by lia.
+  rewrite !wrap64_id by fits64. reflexivity.
 Qed.
 
 (* on the code as it stands a one-line range comes back empty (F5) *)
 Lemma read_uspan_pinned_one_line tag s :
+  in_int64 s = true ->
   read_uspan pinned tag (uspan pinned tag s (s + 1)) = Some (s, 0).
 Proof.
-  unfold read_uspan, uspan, uspan_bare, uspan_single, omitted_count, pinned, parse_span_omitted_hi.
+  intros Hs. unfold read_uspan, uspan, uspan_bare, uspan_single, omitted_count, pinned, parse_span_omitted_hi.
   cbn [uspan_omitted_count_zero uspan_empty_names_next_line].
   replace (s + 1 - s =? 1) with true by (symmetry; apply Z.eqb_eq; lia).
-  rewrite parse_span_single. cbn. reflexivity.
+  rewrite parse_span_single by exact Hs. cbn. reflexivity.
 Qed.
 
 (* ---------------------------------------------------------------- hunk bodies *)
@@ -270,6 +276,12 @@ Definition norm_chunk (c : chunk line) : chunk line :=
 Definition no_one_line_side (c : chunk line) : Prop :=
   LEnd c - LStart c <> 1 /\ REnd c - RStart c <> 1.
 
+(* the line numbers are numbers an int holds with room to spare ([fits]: at most 2^61 in
+   magnitude): strconv.Atoi rejects what an int cannot hold, and the reader adds start and count *)
+Definition chunk_fits (c : chunk line) : Prop :=
+  fits (LStart c) /\ fits (LEnd c) /\ fits (RStart c) /\ fits (REnd c).
+Definition ranges_fit (cs : list (chunk line)) : Prop := Forall chunk_fits cs.
+
 (* which chunk lists a variant reads back faithfully: all of them once an omitted count is read
    as 1; on the code as it stands those without a one-line side *)
 Definition readable (v : variant) (cs : list (chunk line)) : Prop :=
@@ -279,16 +291,17 @@ Definition starts_at (ls : list line) : Prop :=
   match ls with [] => True | l :: _ => exists t, l = 64%N :: t end.
 
 Lemma read_uchunk_chunk v c rest :
+  chunk_fits c ->
   uspan_omitted_count_zero v = false \/ no_one_line_side c ->
   starts_at rest ->
   read_uchunk v (uchunk_lines v c ++ rest) = UChunk (norm_chunk c) rest.
 Proof.
-  intros Hv Hrest. unfold uchunk_lines. cbn [app read_uchunk].
+  intros (Hf1 & Hf2 & Hf3 & Hf4) Hv Hrest. unfold uchunk_lines. cbn [app read_uchunk].
   rewrite fields_uhunk_header. unfold nth_field. cbn [nth].
   replace (read_uchunk_min_fields _ _ _) with false by (unfold read_uchunk_min_fields; reflexivity).
-  rewrite read_uspan_uspan by (destruct Hv as [Hv|[Hv _]]; [left; exact Hv | right; exact Hv]).
-  rewrite read_uspan_uspan by (destruct Hv as [Hv|[_ Hv]]; [left; exact Hv | right; exact Hv]).
-  rewrite read_body_edits. unfold norm_chunk. rewrite <- uchunk_of_ranges.
+  rewrite read_uspan_uspan by (first [assumption | destruct Hv as [Hv|[Hv _]]; [left; exact Hv | right; exact Hv]]).
+  rewrite read_uspan_uspan by (first [assumption | destruct Hv as [Hv|[_ Hv]]; [left; exact Hv | right; exact Hv]]).
+  rewrite read_body_edits. unfold norm_chunk. rewrite <- uchunk_of_ranges by assumption.
   destruct rest as [|l rest]; [reflexivity|].
   destruct Hrest as (t & ->). reflexivity.
 Qed.
@@ -297,19 +310,21 @@ Lemma uchunks_starts_at v cs : starts_at (flat_map (uchunk_lines v) cs).
 Proof. destruct cs as [|c cs]; [exact I|]. cbn. eexists. reflexivity. Qed.
 
 Lemma read_uchunks_all v cs : forall acc fuel,
-  readable v cs -> (fuel > length (flat_map (uchunk_lines v) cs))%nat ->
+  ranges_fit cs -> readable v cs -> (fuel > length (flat_map (uchunk_lines v) cs))%nat ->
   read_uchunks v fuel (flat_map (uchunk_lines v) cs) acc = ROk (acc ++ unified_normalise cs).
 Proof.
-  induction cs as [|c cs IH]; intros acc fuel Hv Hfuel.
+  induction cs as [|c cs IH]; intros acc fuel Hfit Hv Hfuel.
   - destruct fuel; [cbn in Hfuel; lia|]. cbn. rewrite app_nil_r. reflexivity.
   - destruct fuel as [|f]; [cbn in Hfuel; lia|].
     cbn [flat_map read_uchunks].
     rewrite read_uchunk_chunk.
     + rewrite IH.
       * unfold unified_normalise. cbn [map]. rewrite <- app_assoc. reflexivity.
+      * inversion Hfit; assumption.
       * destruct Hv as [Hv|Hv]; [left; exact Hv | right; inversion Hv; assumption].
       * cbn [flat_map] in Hfuel. rewrite app_length in Hfuel. unfold uchunk_lines in Hfuel at 1.
         cbn [length] in Hfuel. lia.
+    + inversion Hfit; assumption.
     + destruct Hv as [Hv|Hv]; [left; exact Hv | right; inversion Hv; assumption].
     + apply uchunks_starts_at.
 Qed.
@@ -370,18 +385,18 @@ Section Header.
   Proof. destruct ls as [|l ls]; [reflexivity|]. intros (t & ->). reflexivity. Qed.
 
   Lemma read_unified_lines_unified v fi cs :
-    readable v cs -> info_ok fi ->
+    ranges_fit cs -> readable v cs -> info_ok fi ->
     read_unified_lines time zero_time parse_time v (unified_lines time_is_zero format_time v fi cs)
     = ROk (mkPatch (expected_info fi cs) (unified_normalise cs)).
   Proof.
-    intros Hv Hfi. unfold read_unified_lines, unified_lines, expected_info.
+    intros Hfit Hv Hfi. unfold read_unified_lines, unified_lines, expected_info.
     destruct cs as [|c cs]; [reflexivity|].
     set (body := flat_map (uchunk_lines v) (c :: cs)).
     destruct fi as [f|].
     - destruct Hfi as [Hl Hr]. rewrite read_uheader_header by assumption.
-      unfold body. rewrite read_uchunks_all by (first [exact Hv | lia]). reflexivity.
+      unfold body. rewrite read_uchunks_all by (first [exact Hfit | exact Hv | lia]). reflexivity.
     - cbn [unified_header app]. rewrite read_uheader_none by apply uchunks_starts_at.
-      unfold body. rewrite read_uchunks_all by (first [exact Hv | lia]). reflexivity.
+      unfold body. rewrite read_uchunks_all by (first [exact Hfit | exact Hv | lia]). reflexivity.
   Qed.
 
   (* ---- newline-freeness of what Unified writes ---- *)
@@ -434,11 +449,11 @@ Section Header.
 
   (* ReadUnified(Unified(chunks)) = the same chunks, hunk for hunk, and the same header *)
   Theorem read_unified_unified v fi cs :
-    readable v cs -> lines_nf cs -> info_ok fi ->
+    ranges_fit cs -> readable v cs -> lines_nf cs -> info_ok fi ->
     read_unified time zero_time parse_time v (unified time_is_zero format_time v fi cs)
     = ROk (mkPatch (expected_info fi cs) (unified_normalise cs)).
   Proof.
-    intros Hv Hnf Hfi. unfold read_unified, unified.
+    intros Hfit Hv Hnf Hfi. unfold read_unified, unified.
     rewrite split_join_lines by (apply unified_lines_nf; assumption).
     apply read_unified_lines_unified; assumption.
   Qed.
